@@ -80,6 +80,13 @@ def corpus():
     for c in list(cs):
         if c["fn"] in ("sjac", "vjac"):
             cs.append(dict(c, numba_src=True, kind=c["kind"] + "-numba-src", key="numba-src"))
+    # families exercised on EVERY run: single-precision Jacobians of surveys with a large common offset (projected metres)
+    for off in (2.0 ** 19, 2.0 ** 22):
+        oe = [off + v for v in (0.25, 1.5, 3.75, 7.0)]
+        on = [-off + v for v in (0.5, 2.25, 1.0, 6.5)]
+        c = mk_sjac(oe, on, [off + 1.0, off + 5.25], [-off + 0.75, -off + 4.0], 0.0, "corpus-offset")
+        cs.append(c)
+        cs.append(dict(c, dtype32=True, kind="corpus-offset-float32", key="float32"))
     return cs
 
 
